@@ -23,6 +23,9 @@ pub struct Case {
     pub joined_lines: Vec<String>,
     /// also run in fresh child processes
     pub processes: bool,
+    /// the input is the lines followed by the same lines once more (every row recurs after all the others)
+    #[serde(default)]
+    pub twice: bool,
 }
 
 pub struct C18;
@@ -63,6 +66,19 @@ pub fn run_job_main(path: &str) -> i32 {
     }
 }
 
+/// `c0 [NOT] IN (...)` with repeated literals and, half of the time, a literal of another type somewhere in the list: whether a row
+/// passes, fails or stops the run with a type error depends on the order in which the list is looked through - the listed one
+fn in_list_filter(t: &mut Tape) -> E {
+    let n = 3 + t.draw(5);
+    let mut list: Vec<E> = (0..n).map(|_| E::Int(t.range(0, 4))).collect();
+    let again = list[t.draw(list.len())].clone();
+    list.insert(t.draw(list.len() + 1), again);
+    if t.chance(1, 2) {
+        list.insert(t.draw(list.len() + 1), E::Str("n/a".into()));
+    }
+    E::In { not: t.chance(1, 4), x: Box::new(E::col("c0")), list }
+}
+
 fn wide_table(t: &mut Tape, name: &str, prefix: &str, ncols: usize) -> DataTable {
     let mut cols = Vec::new();
     for i in 0..ncols {
@@ -81,7 +97,7 @@ fn wide_table(t: &mut Tape, name: &str, prefix: &str, ncols: usize) -> DataTable
             cols[to].0 = cols[from].0.clone();
         }
     }
-    DataTable { name: name.to_string(), json: t.chance(2, 3), cols, not_null: None }
+    DataTable { name: name.to_string(), json: t.chance(2, 3), cols, not_null: None, default_col: None }
 }
 
 fn many_lines(t: &mut Tape, table: &DataTable, n: usize, key_domain: i64) -> Vec<String> {
@@ -120,7 +136,7 @@ impl Property for C18 {
 
     fn rule(&self) -> String {
         "statements that push many items through every hash container on the output path: `*` over 8-12 columns, GROUP BY (COUNT / SUM / MIN / MAX / COUNT(DISTINCT) over any column incl. REALs with both zeros / ARRAY_AGG / array_unique(ARRAY_AGG) over nullable columns) with up to 30 groups (a third of them: up to 120 groups over 150-300 lines) and 4-6 aggregates, optional LIMIT / DISTINCT, groups must also come out in ascending key order, joins with 6-10 partners per key and `*` over both tables, \
-         HAVING with hidden aggregates; one case in 250: PERCENTILE / COUNT(DISTINCT) over a single group of 10 000 - 16 000 spread-out values; now and then a column name defined twice; definitions with 0-6 extra unrelated tables in different positions, among them tables whose name differs from a used one only in letter case. Oracle: byte equality of the captured output (text and JSON) across 8 in-process repetitions (every HashMap gets a fresh \
+         HAVING with hidden aggregates; one case in 250: PERCENTILE / COUNT(DISTINCT) over a single group of 10 000 - 16 000 spread-out values; one case in 1000: SELECT DISTINCT over 66 000 - 96 000 distinct rows that all recur afterwards; WHERE c0 [NOT] IN (list with repeated literals and possibly a literal of another type: rows, or rows and then a type error, by the listed order); now and then a column name defined twice; definitions with 0-6 extra unrelated tables in different positions, among them tables whose name differs from a used one only in letter case. Oracle: byte equality of the captured output (text and JSON) across 8 in-process repetitions (every HashMap gets a fresh \
          RandomState), the variants with extra tables added / reordered, and (a slice of cases) 4 fresh child processes. Non-trivial: output with >= 6 rows or >= 6 columns; distinct by case."
             .to_string()
     }
@@ -153,7 +169,8 @@ impl Property for C18 {
         let mut joined_lines = Vec::new();
         let mut q = Select::simple(Vec::new(), "t");
         let lines;
-        let mode = if t.chance(1, 250) { 3 } else { t.weighted(&[3, 4, 3]) };
+        let mut twice = false;
+        let mode = if t.chance(1, 250) { 3 } else if t.chance(1, 1000) { 4 } else { t.weighted(&[3, 4, 3]) };
         match mode {
             3 => {
                 // one group with well over ten thousand spread-out values (sampling / approximate aggregates would show here)
@@ -171,6 +188,19 @@ impl Property for C18 {
                 q.items.push((E::Agg("COUNT".into(), true, vec![E::col("c0")]), Some("d".into())));
                 q.items.push((E::Agg("COUNT".into(), false, vec![E::Star]), Some("n".into())));
             }
+            4 => {
+                // SELECT DISTINCT over far more distinct rows than any bounded memory of seen rows holds, each recurring later
+                let n = 66_000 + t.draw(30_000);
+                lines = (0..n as i64)
+                    .map(|i| {
+                        let values: Vec<V> = table.cols.iter().enumerate().map(|(c, _)| if c == 0 { V::Int(i) } else { V::Null }).collect();
+                        table.line(&values, t)
+                    })
+                    .collect();
+                twice = true;
+                q.distinct = true;
+                q.items.push((E::col("c0"), None));
+            }
             0 => {
                 // `*` over many columns
                 let n = 6 + t.draw(10);
@@ -181,6 +211,8 @@ impl Property for C18 {
                 }
                 if t.chance(1, 3) {
                     q.filter = Some(E::Is { not: true, l: Box::new(E::col("c0")), r: Box::new(E::Null) });
+                } else if t.chance(1, 2) {
+                    q.filter = Some(in_list_filter(t));
                 }
             }
             1 => {
@@ -217,6 +249,9 @@ impl Property for C18 {
                     };
                     q.items.push((agg, Some(format!("a{}", i))));
                 }
+                if t.chance(1, 5) {
+                    q.filter = Some(in_list_filter(t));
+                }
                 if t.chance(1, 2) {
                     q.having = Some(E::bin(BinOp::And, E::bin(BinOp::Ge, E::Agg("COUNT".into(), false, vec![]), E::Int(1)), E::bin(BinOp::Ge, E::Agg("MAX".into(), false, vec![E::col("c0")]), E::Int(0))));
                 }
@@ -250,7 +285,7 @@ impl Property for C18 {
             let at = t.draw(extra.len() + 1);
             extra.insert(at, wide_table(t, name, "e", n));
         }
-        Case { table, joined, extra, query: q, lines, joined_lines, processes: t.chance(1, 15) }
+        Case { table, joined, extra, query: q, lines, joined_lines, processes: t.chance(1, 15), twice }
     }
 
     fn check(&self, case: &Case, ctx: &Ctx, obs: &mut Obs) -> Result<(), Failure> {
@@ -261,7 +296,14 @@ impl Property for C18 {
             j.file = jpath.to_string_lossy().to_string();
         }
         let text = q.text();
-        let files = scratch_files(ctx, "c18", &[lines_to_bytes(&case.lines)]);
+        let files = if case.twice {
+            obs.label("distinct-over-60000-rows-recurring");
+            let mut bytes = lines_to_bytes(&case.lines);
+            bytes.extend(lines_to_bytes(&case.lines));
+            scratch_files(ctx, "c18", &[bytes])
+        } else {
+            scratch_files(ctx, "c18", &[lines_to_bytes(&case.lines)])
+        };
         let main_defs: Vec<String> = std::iter::once(case.table.definition()).chain(case.joined.iter().map(|j| j.definition())).collect();
         let defs_variant = |variant: usize| -> String {
             // 0: only the needed tables; 1: extras first; 2: extras last; 3: interleaved, reversed
